@@ -252,6 +252,38 @@ def m_char_to_string(ex, st, callee, args):
     return [(None, sstr([v]))]
 
 
+def m_load_local(ex, st, callee, args):
+    """Ctx::load_local(name) -> Option<PrimitiveFlagsPair> for a name whose characters are concrete: the variable cell set up by
+    the kernel driver under ("var", name)"""
+    s_ = to_sstr(ex, st, args[1])
+    if s_ is None:
+        raise Inconclusive("load_local of %r" % (args[1],))
+    name = ""
+    for c in s_.fields:
+        e = z3.simplify(c.e)
+        if not z3.is_bv_value(e):
+            raise Inconclusive("load_local with a symbolic name")
+        name += chr(e.as_long())
+    key = ("var", name)
+    if key not in st.cells:
+        return [(None, NONE)]
+    return [(None, some(Adt("PrimitiveFlagsPair", None, [Ref(key)])))]
+
+
+def m_str_eq(ex, st, callee, args):
+    """<str as PartialEq>::eq / ne on symbolic-character strings and literals"""
+    a, b = to_sstr(ex, st, args[0]), to_sstr(ex, st, args[1])
+    if a is None or b is None:
+        raise Inconclusive("string comparison of %r and %r" % (args[0], args[1]))
+    if len(a.fields) != len(b.fields):
+        r = z3.BoolVal(False)
+    else:
+        r = z3.And(*[x.e == y.e for x, y in zip(a.fields, b.fields)]) if a.fields else z3.BoolVal(True)
+    if callee.endswith("::ne"):
+        r = z3.Not(r)
+    return [(None, Sc("bool", z3.simplify(r)))]
+
+
 def m_unwrap_or_default_str(ex, st, callee, args):
     v = ex.deref(st, args[0]) if isinstance(args[0], Ref) else args[0]
     if isinstance(v, Adt) and v.ty == "Option":
@@ -269,12 +301,14 @@ def install(m):
         (r"^String::insert_str$", m_insert_str),
         (r"^(core::)?str::<impl str>::split_at$", m_split_at),
         (r"^String::as_bytes$|^(core::)?str::<impl str>::as_bytes$", m_as_bytes),
-        (r"^(std|core)::str::from_utf8$", m_from_utf8),
+        (r"^((std|core)::str::)?from_utf8$", m_from_utf8),
         (r"^(core::)?slice::<impl \[u8\]>::get::<usize>$", m_slice_get),
         (r"^(core::)?(char::methods|num)::<impl u8>::(is_ascii|is_ascii_digit)$", m_u8_pred),
         (r"^<Chars<'_> as Iterator>::nth$", m_chars_nth),
         (r"^<Chars<'_> as Iterator>::count$", m_chars_count),
         (r"^<char as ToString>::to_string$", m_char_to_string),
+        (r"^context::Ctx::<'_>::load_local$", m_load_local),
+        (r"^<&?(str|String) as PartialEq(<&?(str|String)>)?>::(eq|ne)$", m_str_eq),
     ]
     m.table = [(re.compile(p), h) for p, h in pre] + m.table
     m.cache.clear()
